@@ -623,6 +623,12 @@ def build_wrapper(info, pl, harness, modname=PLATFORM_MODULE):
     for a in info.args:
         if a.kind == "reg" and reg_kind(a) not in kinds:
             kinds.append(reg_kind(a))
+    if not kinds and pl["pidx"] >= 1 and harness:
+        # an instruction without register operands: placement 0 is built as it stands (its C file has
+        # only what the instruction itself brings), later placements share a file with register code
+        ks = sorted(k for k, h in harness.items() if "load" in h and "store" in h)
+        if ks:
+            kinds.append(ks[0])
     hc_pre, hc_post = [], []
     for q, k in enumerate(kinds):
         mem, bt, w = k.split(":")
@@ -985,11 +991,28 @@ def _split_output(text, n):
     return ["\n".join(s) for s in segs]
 
 
+def _includes(p):
+    return frozenset(re.findall(r"^\s*#\s*include\s*[<\"][^>\"]+[>\"]", p.c_text or "", re.M))
+
+
 def execute_batch(preps, workdir, max_rebuilds=2):
     """Several wrappers in ONE gcc build (the cost of a build is dominated by <immintrin.h>
-    and the sanitizer runtime).  gcc rejecting the batch or a sanitizer abort falls back:
-    the wrapper concerned is built and run alone (exactly like `execute`), the others are
-    batched again.  Fills p.res of every Prepared; returns the number of gcc builds."""
+    and the sanitizer runtime).  Only wrappers whose own C files have the same #include set
+    share a build, so that no wrapper borrows a header from another one.  gcc rejecting the
+    batch or a sanitizer abort falls back: the wrapper concerned is built and run alone
+    (exactly like `execute`), the others are batched again.  Fills p.res of every Prepared;
+    returns the number of gcc builds."""
+    groups = {}
+    for p in preps:
+        if p.ready:
+            groups.setdefault(_includes(p), []).append(p)
+    builds = 0
+    for g, (key, members) in enumerate(groups.items()):
+        builds += _execute_group(members, workdir / f"g{g}", max_rebuilds)
+    return builds
+
+
+def _execute_group(preps, workdir, max_rebuilds):
     import shutil
 
     builds = 0
@@ -1016,7 +1039,7 @@ def execute_batch(preps, workdir, max_rebuilds=2):
         shutil.rmtree(wd, ignore_errors=True)
         if out["status"] == "compile_error":
             err = out["stderr"]
-            names = set(re.findall(r"In function [\u2018'`]([\w]+)[\u2019']", err))
+            names = set(re.findall(r"(?:In function|inlined from) [\u2018'`]([\w]+)[\u2019']", err))
             offenders = [p for p in pending if str(p.ir.name) in names]
             if not offenders or _classify_compile_error(err) == "driver_error":
                 offenders = list(pending)
